@@ -156,8 +156,41 @@ MUTANTS = [
      "hour floor compensates for the fractional part of the local UTC offset"),
 ]
 
+# benign changes: behaviour differs in ways the properties allow; no check may alarm
+BENIGN = [
+    ("B1", "C18", "labella/d3_time.py",
+     "milli2dt = lambda x: datetime.fromtimestamp(x / 1000.0, timezone.utc).replace(\n    tzinfo=None\n)",
+     "milli2dt = lambda x: datetime(1970, 1, 1) + timedelta(milliseconds=x)",
+     "BENIGN: milliseconds converted by naive timedelta arithmetic (rounding may differ, zone independence holds)"),
+    ("B2", "C04", "labella/distributor.py",
+     "                layers[j].append(stub)\n\n        return layers\n\n    def algorithm_roundRobin",
+     "                layers[j].append(stub)\n\n        return [layer for layer in layers if layer]\n\n    def algorithm_roundRobin",
+     "BENIGN: algorithm simple no longer returns trailing empty layers"),
+    ("B3", "C04", "labella/force.py",
+     "        return self.layers\n",
+     "        return None if self.layers is None else [list(layer) for layer in self.layers]\n",
+     "BENIGN: getLayers() returns copies of the layer lists"),
+    ("B4", "C12", "labella/scale.py",
+     "        self._range = x\n        return self.rescale()\n",
+     "        self._range = list(x)\n        return self.rescale()\n",
+     "BENIGN: range() stores a copy of the caller's list"),
+    ("B5", "C12", "labella/scale.py",
+     "        return LinearScale(\n            list(self._domain),\n            list(self._range),\n            self._interpolate,\n            self._clamp,\n        )",
+     "        other = LinearScale(interpolate=self._interpolate)\n        other.domain(self._domain).range(list(self._range)).clamp(self._clamp)\n        return other",
+     "BENIGN: copy() built through the setters"),
+    ("B6", "C06", "labella/force.py",
+     "        layers = self.distributor.distribute(self._nodes)\n",
+     "        layers = self.distributor.distribute(list(self._nodes))\n",
+     "BENIGN: compute() hands a copy of the label list to the distributor"),
+    ("B7", "C10", "labella/timeline.py",
+     "        self.options[\"labella\"] = dict(self.options[\"labella\"])\n",
+     "        self.options[\"labella\"] = dict(self.options[\"labella\"])\n        self.options[\"margin\"] = dict(self.options[\"margin\"])\n        self.options[\"labelPadding\"] = dict(self.options[\"labelPadding\"])\n",
+     "BENIGN: every instance also copies its margin and padding dicts"),
+]
+MUTANTS = MUTANTS + BENIGN
+
 # mutants that must NOT be flagged (the property still holds): soundness side
-EXPECT_CLEAN = {"T3"}
+EXPECT_CLEAN = {"T3"} | {m[0] for m in BENIGN}
 
 
 def _make_copy():
